@@ -259,7 +259,12 @@ typedef struct {
 	void *v[MAXBLK];   /* block pointers */
 } stripe_t;
 
-static inline uint8_t canary_byte(size_t off) { return (uint8_t)(0xA5 ^ (off * 7)); }
+static uint8_t CANARY_TPL[CANARY];
+
+static void canary_setup(void)
+{
+	for (int o = 0; o < CANARY; ++o) CANARY_TPL[o] = (uint8_t)(0xA5 ^ (o * 7));
+}
 
 static void stripe_alloc(stripe_t *s, int maxnb, size_t maxsize)
 {
@@ -278,7 +283,7 @@ static void stripe_shape(stripe_t *s, int nb, size_t size)
 	s->nb = nb; s->size = size;
 	for (int k = 0; k <= nb; ++k) {
 		uint8_t *c = s->base + (size_t)k * (size + CANARY);
-		for (int o = 0; o < CANARY; ++o) c[o] = canary_byte((size_t)k * 64 + o);
+		memcpy(c, CANARY_TPL, CANARY);
 		if (k < nb) s->v[k] = c + CANARY;
 	}
 }
@@ -286,11 +291,8 @@ static void stripe_shape(stripe_t *s, int nb, size_t size)
 /* index of the first damaged canary zone, -1 if all intact */
 static int stripe_canary_bad(const stripe_t *s)
 {
-	for (int k = 0; k <= s->nb; ++k) {
-		const uint8_t *c = s->base + (size_t)k * (s->size + CANARY);
-		for (int o = 0; o < CANARY; ++o)
-			if (c[o] != canary_byte((size_t)k * 64 + o)) return k;
-	}
+	for (int k = 0; k <= s->nb; ++k)
+		if (memcmp(s->base + (size_t)k * (s->size + CANARY), CANARY_TPL, CANARY) != 0) return k;
 	return -1;
 }
 
